@@ -21,6 +21,7 @@ type execExtra struct {
 	pendingGuardHeaps []string
 	rangeKeys         map[*ssa.Range]string
 	havocAll          bool
+	curLoop           *ssa.BasicBlock
 	pendingParamInv   bool
 	hypMode           bool
 	writtenRefs       map[string][]*Node
@@ -42,7 +43,28 @@ func (e *Exec) bindSites() {
 	if e.fc == nil {
 		return
 	}
-	for _, ss := range e.fc.Sites {
+	sites := append([]*SiteSpec(nil), e.fc.Sites...)
+	ruleSites := map[*SiteSpec]bool{}
+	for _, r := range e.v.db.Rules {
+		if r.PkgPath != e.fc.PkgPath {
+			continue
+		}
+		in := false
+		for _, k := range r.Scope {
+			if k == e.fc.Key || (strings.HasSuffix(k, "$*") && strings.HasPrefix(e.fc.Key, strings.TrimSuffix(k, "*"))) {
+				in = true
+			}
+		}
+		if !in {
+			continue
+		}
+		for _, t := range r.Targets {
+			ss := &SiteSpec{Kind: "call", Target: t, Before: true, Assume: r.Assume, Assert: r.Assert, Label: r.Label + ":" + t, Props: r.Props}
+			sites = append(sites, ss)
+			ruleSites[ss] = true
+		}
+	}
+	for _, ss := range sites {
 		n := 0
 		for _, b := range e.fn.Blocks {
 			for _, ins := range b.Instrs {
@@ -53,6 +75,9 @@ func (e *Exec) bindSites() {
 					}
 				}
 			}
+		}
+		if n == 0 && ruleSites[ss] {
+			continue // a rule simply does not apply where its target is not called
 		}
 		if n == 0 || (ss.Nth > n) {
 			panic(unsupportedErr{fmt.Sprintf("anchor-missing: site %q (%s %s) binds to nothing in %s", ss.Label, ss.Kind, ss.Target, e.funcKey)})
@@ -231,6 +256,9 @@ func (e *Exec) libCall(s *State, ins ssa.Instruction, callee *ssa.Function, full
 		e.logAbs("sync.Cond: not modelled")
 		return nil, true
 	}
+	if r, ok := e.stringLib(s, full, args); ok {
+		return r, true
+	}
 	if full == "encoding/binary.Write" || full == "encoding/binary.Read" {
 		if r, ok := e.binaryRW(s, ins, full, args); ok {
 			return r, true
@@ -371,4 +399,134 @@ func (e *Exec) initGhostFor(s *State, ref *Node, ptrT types.Type) {
 		h := e.heap(s, name, sortS)
 		e.setHeap(s, name, Store(h, key, zeroOfSort(arrayValSort(sortS))), key)
 	}
+}
+
+// stringLib: the string library functions used by the path validators. In native string mode they
+// are theory operators (GOOS=linux: the separator is '/', ToSlash/FromSlash are the identity); in
+// the other modes they are uninterpreted functions of their arguments.
+func (e *Exec) stringLib(s *State, full string, args []Value) (Value, bool) {
+	bin := func(op, uf string) (Value, bool) {
+		a, b := args[0].(*Node), args[1].(*Node)
+		return strPredicate(op, uf, a, b), true
+	}
+	switch full {
+	case "strings.Contains":
+		return bin("str.contains", "uf_strContains")
+	case "strings.HasPrefix":
+		a, b := args[0].(*Node), args[1].(*Node)
+		return strPredicate("str.prefixof", "uf_strPrefix", b, a), true
+	case "strings.HasSuffix":
+		a, b := args[0].(*Node), args[1].(*Node)
+		return strPredicate("str.suffixof", "uf_strSuffix", b, a), true
+	case "path/filepath.IsAbs":
+		a := args[0].(*Node)
+		return strPredicate("str.prefixof", "uf_strPrefix", e.strLit("/"), a), true
+	case "path/filepath.ToSlash", "path/filepath.FromSlash":
+		return args[0], true
+	}
+	return nil, false
+}
+
+func strPredicate(op, uf string, a, b *Node) *Node {
+	if nativeStrings {
+		return App(op, "Bool", a, b)
+	}
+	declStr()
+	TS.DeclFun(uf, []string{"Str", "Str"}, "Bool")
+	return App(uf, "Bool", a, b)
+}
+
+// ---------- map invariants by variable ----------
+
+// mapVarOf: the source variable (local or captured) a map operand was loaded from.
+func mapVarOf(v ssa.Value) string {
+	u, ok := v.(*ssa.UnOp)
+	if !ok {
+		return ""
+	}
+	switch a := u.X.(type) {
+	case *ssa.Alloc:
+		return a.Comment
+	case *ssa.FreeVar:
+		return a.Name()
+	}
+	return ""
+}
+
+func (e *Exec) mapInvsFor(mapOperand ssa.Value) []*MapInv {
+	if len(e.v.db.MapInvs) == 0 || e.fn == nil {
+		return nil
+	}
+	name := mapVarOf(mapOperand)
+	if name == "" {
+		return nil
+	}
+	root := e.fn
+	for root.Parent() != nil {
+		root = root.Parent()
+	}
+	var out []*MapInv
+	for _, mi := range e.v.db.MapInvs {
+		if mi.Var == name && root.Pkg != nil && mi.PkgPath == root.Pkg.Pkg.Path() && mi.Func == root.Name() {
+			out = append(out, mi)
+		}
+	}
+	return out
+}
+
+func (e *Exec) evalMapInv(mi *MapInv, s *State, k, v Value, mt *types.Map) *Node {
+	cc := calleeCtx{e.v.pkgByPath(mi.PkgPath)}
+	return cc.evalWith(e, mi.Clause, s, s, map[string]specVar{"k": {k, mt.Key()}, "v": {v, mt.Elem()}})
+}
+
+// checkMapInvAliasing: the variable's map value is used only as the operand of lookups, updates,
+// len, range and delete (so every update goes through the variable and is seen by the invariant).
+func (v *Verifier) checkMapInvAliasing() []string {
+	var bad []string
+	for _, mi := range v.db.MapInvs {
+		sp := v.spkgs[mi.PkgPath]
+		if sp == nil {
+			continue
+		}
+		root := sp.Func(mi.Func)
+		if root == nil {
+			bad = append(bad, "mapinv: no function "+mi.Func)
+			continue
+		}
+		var fns []*ssa.Function
+		var add func(f *ssa.Function)
+		add = func(f *ssa.Function) {
+			fns = append(fns, f)
+			for _, a := range f.AnonFuncs {
+				add(a)
+			}
+		}
+		add(root)
+		for _, f := range fns {
+			for _, b := range f.Blocks {
+				for _, ins := range b.Instrs {
+					u, ok := ins.(*ssa.UnOp)
+					if !ok || mapVarOf(u) != mi.Var {
+						continue
+					}
+					if _, isMap := u.Type().Underlying().(*types.Map); !isMap {
+						continue
+					}
+					for _, r := range *u.Referrers() {
+						switch x := r.(type) {
+						case *ssa.Lookup, *ssa.MapUpdate, *ssa.Range, *ssa.DebugRef:
+						case *ssa.Call:
+							if bi, ok := x.Call.Value.(*ssa.Builtin); ok && (bi.Name() == "len" || bi.Name() == "delete") {
+								continue
+							}
+							bad = append(bad, fmt.Sprintf("mapinv %s.%s: the map is passed to a call in %s", mi.Func, mi.Var, f.Name()))
+						default:
+							bad = append(bad, fmt.Sprintf("mapinv %s.%s: the map value escapes (%T) in %s", mi.Func, mi.Var, r, f.Name()))
+						}
+					}
+				}
+			}
+		}
+	}
+	return bad
 }
